@@ -202,6 +202,48 @@ def run(ctx):
     lexer_slices(ctx)
     quoted_symbols(ctx, c)
     let_shadowing(ctx, c)
+    quoted_symbol_end(ctx, c)
+
+
+def quoted_symbol_end(ctx, c):
+    """R14.11: SMT-LIB has no escape inside `|..|`: a quoted symbol ends at the next bar, whatever precedes it.  The writer puts names between bars
+    verbatim, so a lexer that lets some bars pass (after a backslash, say) does not read back a name that ends in that character."""
+    ctx.rule("R14.11", "in the lexer state for a quoted symbol the token ends under exactly one condition, the current byte being `|`")
+    found = 0
+    for path, fl in sorted(c.fns.items()):
+        if not path.startswith(("<" + Pm + "Lexer", Pm + "Lexer")):
+            continue
+        f = fl[0]
+        ix = Index(f["body"])
+        for m in ix.nodes:
+            if m.get("k") != "match":
+                continue
+            for arm in m["arms"]:
+                if not any(q.get("k") == "pvariant" and str(q.get("path", "")).endswith("LexState::ParsingEscapedToken") for q in walk(arm["pat"])):
+                    continue
+                for site in [x for x in walk(arm["body"]) if x.get("k") == "ctor" and callee(x).endswith("Token::EscapedValue")]:
+                    found += 1
+                    conds = psanorm.path_conditions(ix, site, upto=m, arms=True)
+                    extra, bar = [], False
+                    for c_, pol in conds:
+                        if c_.get("k") == "armpat":
+                            alts = pat_alts(c_["pat"])
+                            if pol and alts and all(a_.get("k") == "plit" and a_.get("v") in (124, "|") for a_ in alts):
+                                bar = True
+                                continue
+                            if any(q.get("k") == "pvariant" and str(q.get("path", "")).endswith("LexState::ParsingEscapedToken") for q in walk(c_["pat"])):
+                                continue
+                            extra.append(("" if pol else "!") + "match " + show(c_["scrut"])[:30])
+                            continue
+                        c0 = resolve(c_)
+                        if pol and c0.get("k") == "binary" and c0["op"] == "==" and any(peel(x_).get("k") == "lit" and peel(x_).get("v") in (124, "|") for x_ in (c0["l"], c0["r"])):
+                            bar = True
+                            continue
+                        extra.append(("" if pol else "!") + show(c0)[:50])
+                    ctx.inst("R14.11", "%s:quoted-symbol-ends-at-bar#%d" % (path.split("::")[-1], found), bar and not extra, site["sp"],
+                             "a quoted symbol ends at the next `|`; here the token ends only if also %s: the writer emits names between bars verbatim, so a name for which this extra condition fails at its closing bar is not read back" % extra,
+                             sample={"conditions": [("" if p_ else "!") + (show(c_)[:40] if c_.get("k") != "armpat" else "armpat") for c_, p_ in conds]})
+    ctx.floor("R14.11", "sites that end a quoted symbol", found, 1)
 
 
 def let_shadowing(ctx, c):
